@@ -30,8 +30,10 @@ SITE_THEOREMS = ["C19_K49_to_dict_sites", "C19_K49_to_dict_is_model", "C19_K49_p
 
 # keyword forwarding of the nested call = the translated get_pack_method_flags (C08's kernel K8)
 FLAG_THEOREMS = ["C19_K8_call_keywords", "C19_K8_context_forwarded", "C19_K8_model_keywords"]
-# the union packer's try-each = the method the translated loops of pack_union emit (C11's kernel K21)
-UNION_THEOREMS = ["C19_K21_emit_tries", "C19_K21_pack_union_mixin", "C19_K21_pack_union_codec"]
+# the union packer's / unpacker's try-each = the method the translated loops of pack_union / UnionUnpackerBuilder._add_body
+# emit (C11's kernels K21, K19)
+UNION_THEOREMS = ["C19_K21_emit_tries", "C19_K21_pack_union_mixin", "C19_K21_pack_union_codec",
+                  "C19_K19_emit_union_dc", "C19_K19_unpack_union"]
 
 KINDS = ["dict", "dict", "json", "orjson", "msgpack", "yaml", "toml", "plain"]
 CODECS = ["basic", "json", "orjson", "msgpack", "yaml", "toml"]
@@ -720,9 +722,10 @@ def run(ctx: vlib.Ctx):
         "field emission block, the kwargs-vs-literal decision (K8's) and the encoder are parameters.  K49 itself is compared "
         "on every run with the sites parsed from every method text the library exec's for the generated classes",
         "reused kernels of other properties: K8 (get_pack_method_flags: C19_K8_* - the keyword list of the nested call is "
-        "the (context?, other keywords) pair the model passes) and K21 (pack_union loops: C19_K21_* - the emitted union "
-        "method is try_each over the distinct call expressions); the abstraction of a union member as UnionModel.pmember "
-        "(class name, expression id, encoder) is C11's",
+        "the (context?, other keywords) pair the model passes) K21 (pack_union loops: C19_K21_* - the emitted union "
+        "method is try_each over the distinct call expressions) and K19 (UnionUnpackerBuilder._add_body: C19_K19_* - for "
+        "dataclass members one try block per distinct member, = dtry); the abstraction of a union member as "
+        "UnionModel.pmember / UnionEmit.mspec (class name, expression id, is-it-TypeMatchEligible, encoder) is C11's",
         "harness/c19lib.py: class-source generator, flattening of inherited fields/hooks/Config (independent re-statement "
         "of get_declared_hook), value/wire materialiser, event canonicaliser (uids), Coq term printer",
         "format libraries json/orjson/msgpack/yaml/tomli_w/tomllib only transport the dict (outputs are decoded and compared)",
@@ -743,18 +746,19 @@ def run(ctx: vlib.Ctx):
     br = ctx.theorems("props/C19_hooks.vo", THEOREMS)
     ctx.theorems("props/C19_sites.vo", SITE_THEOREMS, kernels=["K49"])
     ctx.theorems("props/C19_flags.vo", FLAG_THEOREMS, kernels=["K8"])
-    ctx.theorems("props/C19_union_emit.vo", UNION_THEOREMS, kernels=["K21"])
+    ctx.theorems("props/C19_union_emit.vo", UNION_THEOREMS, kernels=["K21", "K19"])
     if thorough_tier(ctx) and br.ok:
         # second opinion: the standalone checker re-checks the compiled library and its whole cone
         rc, out, secs = vlib.run(["timeout", "1500", "coqchk", "-o", "-silent", "-Q", "theories", "Verif", "-Q", "gen", "VerifGen",
-                                  "-Q", "props", "VerifProps", "VerifProps.C19_hooks"], cwd=vlib.COQ, timeout=1600)
+                                  "-Q", "props", "VerifProps", "VerifProps.C19_hooks", "VerifProps.C19_sites",
+                                  "VerifProps.C19_flags", "VerifProps.C19_union_emit"], cwd=vlib.COQ, timeout=1600)
         import re as _re
         m = _re.search(r"\* Axioms:\s*(.*?)\n\s*\n", out, _re.S)
         axioms = " ".join(m.group(1).split()) if m else "?"
         ok = rc == 0 and axioms == "<none>" and "type-in-type: <none>" in out and "unsafe (co)fixpoints: <none>" in out \
             and "positivity is assumed: <none>" in out
-        ctx.obligation("coqchk -o VerifProps.C19_hooks", ok, f"rc={rc} Axioms: {axioms} ({secs:.0f}s)")
-        ctx.trusted.append(f"coqchk -o VerifProps.C19_hooks: Axioms: {axioms}; no type-in-type, no unsafe fixpoints, no assumed positivity")
+        ctx.obligation("coqchk -o VerifProps.C19_{hooks,sites,flags,union_emit}", ok, f"rc={rc} Axioms: {axioms} ({secs:.0f}s)")
+        ctx.trusted.append(f"coqchk -o VerifProps.C19_hooks C19_sites C19_flags C19_union_emit: Axioms: {axioms}; no type-in-type, no unsafe fixpoints, no assumed positivity")
         if not ok:
             ctx.not_shown("coqchk VerifProps.C19_hooks", out[-1500:])
 
